@@ -345,6 +345,45 @@ func work(w *mon.W) {
 		}
 		w.Shape(mon.Hash64("args-random", int(c.I)))
 	})
+	// uri-update: URI.Update(reference) — the setter redirects go through — resolves a
+	// reference against the URI as RFC 3986 does; net/url's ResolveReference is the second
+	// opinion.  References without dot segments and doubled path slashes (whose
+	// normalisation is hertz's own business): what matters here is where the scheme, the
+	// authority, the path, the query and the fragment of the reference begin.
+	refs := []string{"/login?next=http://site.example/x", "?u=//x", "c?d=http://e.example", "#//frag", "//other.host/p?q=1", "http://abs.host/z?k=v", "https://abs.host", "/plain", "sub/leaf", "?only=query", "#onlyfrag", "/p?x=1#y//z", "leaf?next=//evil.example/", "/a?b=c://d"}
+	bases := []string{"http://h.com/a/b?x=1#f", "https://h.com:8443/dir/", "http://h.com/"}
+	w.Cases("uri-update", uint64(len(refs)*len(bases)), func(c *mon.Case) {
+		base, ref := bases[int(c.I)%len(bases)], refs[int(c.I)/len(bases)]
+		c.Detail = func() interface{} {
+			return map[string]interface{}{"family": "uri-update", "base": base, "reference": ref}
+		}
+		var u protocol.URI
+		u.Parse(nil, []byte(base))
+		u.Update(ref)
+		bu, err1 := url.Parse(base)
+		ru, err2 := url.Parse(ref)
+		if err1 != nil || err2 != nil {
+			return
+		}
+		want := bu.ResolveReference(ru)
+		wantPath := want.EscapedPath()
+		if wantPath == "" {
+			wantPath = "/"
+		}
+		w.Count("uri_updates", 1)
+		w.Count("roundtrips", 1)
+		wantFrag := want.Fragment
+		if strings.HasPrefix(ref, "?") && !strings.Contains(ref, "#") {
+			// documented: a reference that is a query only updates the query only (the
+			// fragment of the URI stays, where RFC 3986 resolution would drop it)
+			wantFrag = string(u.Hash())
+		}
+		if string(u.Scheme()) != want.Scheme || string(u.Host()) != want.Host || string(u.Path()) != wantPath || string(u.QueryString()) != want.RawQuery || string(u.Hash()) != wantFrag {
+			c.Violate("uri-update", "URI %q updated with the reference %q: scheme %q host %q path %q query %q fragment %q; RFC 3986 resolution (net/url) gives %q %q %q %q %q", base, ref, u.Scheme(), u.Host(), u.Path(), u.QueryString(), u.Hash(), want.Scheme, want.Host, wantPath, want.RawQuery, want.Fragment)
+			return
+		}
+		w.Shape(mon.Hash64("uri-update", base, ref))
+	})
 	w.Cases("uri", uint64(w.Pick(3000, 60000)), func(c *mon.Case) {
 		r := c.R
 		for it := 0; it < 500; it++ {
